@@ -152,6 +152,24 @@ int main(int argc, char **argv) {
              for (CardinalDir d : {CardinalDir::EAST, CardinalDir::SOUTH, CardinalDir::WEST, CardinalDir::NORTH}) for (bool cv : {true, false}) check_tree_layout(n, par, d, cv);
              ctx.done_case(); } while (mcx::odo_next(par, radix) && !ctx.stopped());
     }
+    // every UNLABELLED rooted tree (Beyer-Hedetniemi level sequences, lexicographic successor): the layout sorts the child
+    // subtrees of every node by isomorphism class itself, so the order of children in the input is immaterial and one
+    // representative per isomorphism class is exhaustive for the tree shapes
+    for (int n = 7; n <= (T ? 17 : 15); n++) {
+        ctx.phase(mcx::fmt("symmetricLayout: every unlabelled rooted tree n=%d x 2 growth directions x ordering", n));
+        vector<int> L(n); for (int i = 0; i < n; i++) L[i] = i;   // level sequence of the path
+        for (;;) {
+            if (ctx.stopped()) break;
+            if (ctx.next()) { vector<int> par(n, 0); vector<int> last(n + 1, 0); for (int i = 1; i < n; i++) { par[i] = last[L[i] - 1]; last[L[i]] = i; }
+                ctx.count("states"); string ss; for (int i = 1; i < n; i++) ss += mcx::fmt("%d<-%d ", i, par[i]); ctx.sample(ss, 1);
+                for (CardinalDir d : {CardinalDir::EAST, CardinalDir::SOUTH}) for (bool cv : {true, false}) check_tree_layout(n, par, d, cv);
+                ctx.done_case(); }
+            // successor: find last position p with L[p] > 1, then repeat the segment starting at its new parent position
+            int p = n - 1; while (p > 0 && L[p] == 1) p--; if (p <= 0) break;
+            int q = p - 1; while (L[q] != L[p] - 1) q--;
+            for (int i = p; i < n; i++) L[i] = L[i - (p - q)];
+        }
+    }
     for (int n = 3; n <= (T ? 6 : 5); n++) {
         ctx.phase(mcx::fmt("planarise: all labelled leafless connected graphs n=%d routed by LeaflessOrthoRouter", n));
         all_graphs(n, true, [&](const EL &es) { vector<int> deg(n, 0); for (auto &e : es) { deg[e.first]++; deg[e.second]++; } for (int d : deg) if (d < 2) return; if (!ctx.next()) return; ctx.count("states"); ctx.sample(gstr(n, es)); check_planarise(n, es); ctx.done_case(); });
